@@ -1,6 +1,6 @@
 # C09 — see MANIFEST text below; families are combined from per-family modules
 from famcombine import combine
-combine('C09', ['fam_thetacodec', 'fam_kllcodec', 'fam_densitycodec', 'fam_cmcodec', 'fam_tdigestcodec', 'fam_varoptcodec', 'fam_cqcodec', 'fam_thetawrap', 'fam_bloomcodec', 'fam_tuplecodec', 'fam_ebppscodec', 'fam_hllcodec', 'fam_ficodec', 'fam_reqcodec', 'fam_serde'], globals())
+combine('C09', ['fam_thetacodec', 'fam_kllcodec', 'fam_densitycodec', 'fam_cmcodec', 'fam_tdigestcodec', 'fam_varoptcodec', 'fam_cqcodec', 'fam_thetawrap', 'fam_bloomcodec', 'fam_tuplecodec', 'fam_ebppscodec', 'fam_hllcodec', 'fam_ficodec', 'fam_reqcodec', 'fam_cpccodec', 'fam_serde'], globals())
 MANIFEST = dict(
     level_text=('Proof: the 126 block pack/unpack routines of theta/include/bit_packing.hpp are TRANSLATED on every run into a deep-embedded straight-line language with C integer '
                 'promotion made explicit, and proved (reflection: verified symbolic bit evaluation + vm_compute) to implement the documented big-endian bit-stream layout and to '
